@@ -6,6 +6,11 @@ if command -v javac >/dev/null && [ -f /usr/share/maven/lib/maven-artifact-3.x.j
   if [ ! -f "$ROOT/.cache/java/MavenOracle.class" ] || [ "$ROOT/oracle/java/MavenOracle.java" -nt "$ROOT/.cache/java/MavenOracle.class" ]; then
     javac -cp /usr/share/maven/lib/maven-artifact-3.x.jar -d "$ROOT/.cache/java" "$ROOT/oracle/java/MavenOracle.java" || echo "note: Maven oracle not built"
   fi
+  if [ -f /usr/share/maven/lib/maven-model-builder-3.x.jar ]; then
+    if [ ! -f "$ROOT/.cache/java/PomOracle.class" ] || [ "$ROOT/oracle/java/PomOracle.java" -nt "$ROOT/.cache/java/PomOracle.class" ]; then
+      javac -nowarn -cp "$(ls /usr/share/maven/lib/*.jar | tr '\n' ':')" -d "$ROOT/.cache/java" "$ROOT/oracle/java/PomOracle.java" 2>/dev/null || echo "note: POM oracle not built"
+    fi
+  fi
 fi
 if command -v cargo >/dev/null; then
   if [ ! -x "$ROOT/.cache/rust/release/semver_oracle" ]; then
